@@ -49,6 +49,7 @@ def bytes_ok(bits):
 
 def register(R, tier="quick"):
     register_invert(R)
+    register_bitcolumn(R)
 
     def mk(I):
         bits = SymList(z3.Array(I.fresh_name("bits"), IntS, IntS), z3.Int(I.fresh_name("nbits")), "list")
@@ -191,3 +192,43 @@ def register_invert(R):
                canaries=[Canary("no-growth", "if needed > len(bits):", "if False:"),
                          Canary("extra-bits-kept", "self._zero_extra_bits(size)", "pass")],
                note="invert_update(size) makes the set the complement within [0, size), also when the array has to grow first")
+
+
+def register_bitcolumn(R):
+    """C08 — BitColumn (boolean per-document column) on top of the BitSet contracts: a truthy value for document d sets bit d
+    and nothing else, a falsy one changes nothing; the reader answers membership of the document number."""
+    C = "whoosh.columns"
+
+    def mkbits(I):
+        return SymList(z3.Array(I.fresh_name("cbits"), IntS, IntS), z3.Int(I.fresh_name("ncbits")), "list")
+
+    def mkw(I):
+        bs = Obj(I.repo.klass(M, "BitSet"), {"bits": mkbits(I)})
+        return {"self": Obj(I.repo.klass(C, "BitColumn.Writer"), {"_bitset": bs, "_dbfile": None, "_compressat": z3.Int("compressat")}),
+                "docnum": z3.Int("docnum"), "value": z3.Bool("value")}
+
+    def WB(env):
+        return env["self"].fields["_bitset"].fields["bits"]
+
+    x = z3.Int("cx")
+    R.contract(C + ":BitColumn.Writer.add", props=["C08"], setup=mkw,
+               requires=[lambda I, env: bytes_ok(WB(env)), "docnum >= 0"],
+               ensures=[lambda I, env: bytes_ok(WB(env)),
+                        lambda I, env: z3.ForAll([x], mem(WB(env), x) == z3.Or(mem(I.old_env["self"].fields["_bitset"].fields["bits"], x),
+                                                                                 z3.And(env["value"], x == env["docnum"])))],
+               modifies=["self._bitset"],
+               canaries=[Canary("false-values-set-too", "if value:", "if True:"),
+                         Canary("wrong-row", "self._bitset.add(docnum)", "self._bitset.add(docnum + 1)")],
+               note="row docnum becomes True iff the value is truthy; no other row changes")
+
+    def mkr(I):
+        bs = Obj(I.repo.klass(M, "BitSet"), {"bits": mkbits(I)})
+        return {"self": Obj(I.repo.klass(C, "BitColumn.Reader"), {"_bitset": bs, "_reverse": False, "_doccount": z3.Int("doccount")}),
+                "i": z3.Int("i")}
+
+    R.contract(C + ":BitColumn.Reader.__getitem__", props=["C08"], setup=mkr,
+               requires=[lambda I, env: bytes_ok(WB(env)), "i >= 0"],
+               ensures=[lambda I, env: to_z3(env["result"]) == mem(WB(env), env["i"])], returns="bool",
+               opts={"split_small_shifts": True},
+               canaries=[Canary("neighbour-row", "return i in self._bitset", "return (i + 1) in self._bitset")],
+               note="row i reads bit i of the (loaded) bit set; rows beyond the stored bytes read False (the default)")
